@@ -365,3 +365,83 @@ def replay_antecedent(fl, FA, vals=None, depth=3, seed=0, budget=600, **kw):
                     "call": f"Rule('{rule_text}').activate_with({type(cj).__name__}, {type(dj).__name__}) inputs={[(v.name, None if v.value != v.value else float(v.value), v.enabled) for v in ins]} "
                             f"Z.fuzzy={[(a.term.name, float(a.degree)) for o in outs for a in o.fuzzy.terms]}"}
     return {"failed": False, "cases": cases, "distinct": len(seen)}
+
+
+# ---------------------------------------------------------------------------------------------------- output cascade (C12)
+def _step(s, d, lp, dflt, lr, mn, mx):
+    """Appendix A.4: step(s, d) = commit(d if not nan(d) else (s if lock_previous else nan))"""
+    import numpy as np
+    v = d if not np.isnan(d) else (s if lp else np.nan)
+    if np.isnan(v) and not np.isnan(dflt):
+        v = dflt
+    if lr:
+        v = float(np.clip(v, mn, mx))
+    return float(v)
+
+
+def replay_cascade(fl, FA, vals=None, seed=0, budget=300, **kw):
+    """all sequences of defuzzified values under every split into successive calls/batches x the 12 settings x failures x clear()"""
+    import random
+    import numpy as np
+    rng = random.Random(seed)
+
+    class Seq(fl.Defuzzifier):
+        def __init__(s):
+            s.next = None; s.fail = False
+
+        def defuzzify(s, term, minimum, maximum):
+            if s.fail:
+                raise RuntimeError("defuzzifier failure")
+            return s.next
+
+    pool = [float("nan"), 2.0, 5.0, 12.0, -3.0, 10.0, 0.0]
+    cases, seen = 0, set()
+    for it in range(budget):
+        lp, lr = rng.random() < 0.5, rng.random() < 0.5
+        dflt = rng.choice([float("nan"), 4.0, 20.0])
+        L = rng.randrange(1, 7)
+        seq = [rng.choice(pool) for _ in range(L)]
+        # a split of the sequence into successive calls
+        cuts = sorted(set(rng.sample(range(1, L), rng.randrange(0, L)))) if L > 1 else []
+        parts = [seq[a:b] for a, b in zip([0] + cuts, cuts + [L])]
+        dz = Seq()
+        ov = fl.OutputVariable("o", minimum=0.0, maximum=10.0, lock_range=lr, lock_previous=lp, default_value=dflt, defuzzifier=dz, terms=[fl.Triangle("t", 0, 5, 10)])
+        s = float("nan")
+        exp_all, got_all = [], []
+        for part in parts:
+            if rng.random() < 0.1:
+                ov.clear(); s = float("nan")
+            if rng.random() < 0.15:          # a failing defuzzification leaves everything unchanged
+                before = (np.array(ov.value, dtype=float).copy(), float(ov.previous_value), list(ov.fuzzy.terms))
+                dz.fail = True
+                try:
+                    ov.defuzzify()
+                    return {"failed": True, "expected": "exception propagates", "observed": "no exception", "call": "defuzzify with a failing defuzzifier"}
+                except RuntimeError:
+                    pass
+                dz.fail = False
+                after = (np.array(ov.value, dtype=float), float(ov.previous_value), list(ov.fuzzy.terms))
+                if not (np.array_equal(before[0], after[0], equal_nan=True) and FA.same(before[1], after[1]) and before[2] == after[2]):
+                    return {"failed": True, "expected": "value/previous_value/fuzzy unchanged after a failing defuzzification", "observed": [after[0].tolist(), after[1]], "call": "defuzzify with a failing defuzzifier"}
+            held = s
+            dz.next = np.array(part, dtype=float) if len(part) > 1 or rng.random() < 0.5 else np.array(part[0], dtype=float)
+            ov.defuzzify()
+            exp = []
+            for dv in part:
+                s = _step(s, dv, lp, dflt, lr, 0.0, 10.0)
+                exp.append(s)
+            got = np.atleast_1d(np.array(ov.value, dtype=float)).tolist()
+            cases += 1
+            seen.add((lp, lr, str(dflt), tuple(str(x) for x in seq), tuple(cuts)))
+            if len(got) != len(exp) or not all(FA.same(a, b) for a, b in zip(got, exp)) or not FA.same(float(ov.previous_value), held):
+                j = lambda xs: [None if x != x else x for x in xs]
+                return {"failed": True, "expected": {"value": j(exp), "previous_value": None if held != held else held}, "cases": cases,
+                        "observed": {"value": j(got), "previous_value": None if ov.previous_value != ov.previous_value else float(ov.previous_value)},
+                        "call": f"OutputVariable(range=[0,10], lock_range={lr}, lock_previous={lp}, default={dflt}) defuzzified values {j(seq)} split as {[j(p_) for p_ in parts]}; failing at part {j(part)}"}
+        # a disabled variable is left untouched
+        ov.enabled = False
+        before = np.array(ov.value, dtype=float).copy()
+        dz.next = np.array([1.0]); ov.defuzzify()
+        if not np.array_equal(before, np.array(ov.value, dtype=float), equal_nan=True):
+            return {"failed": True, "expected": "disabled variable untouched", "observed": np.array(ov.value, dtype=float).tolist(), "call": "defuzzify on a disabled variable"}
+    return {"failed": False, "cases": cases, "distinct": len(seen)}
